@@ -4,11 +4,11 @@ CONSTANTS
   WRun = {}
   WTerm = {}
   QCap = 4
-  MaxIters = 2
+  MaxIters = 3
   MaxStart = 1
   ParentCancels = TRUE
   Presents = {{"start","run","stop"}}
-  RunModes = {"idle","timer"}
+  RunModes = {"timer"}
   GuardNilCancel = FALSE
 INIT GInit
 NEXT GNext
